@@ -131,8 +131,10 @@ def rules(cs, g):
     bad = cs.pick(['$', '?', '`', '!', '\x00', '\x7f', '€', '§', '\x1b', '\xa0', '\u2003', '\u200b']) if cs.bool(100) else gen_no_token_char(cs)
     t = '%s %s %s' % (a, bad, b)
     out.append(('R07_character_that_begins_no_token', 'expr', t, (len(a) + 1, len(a) + 1 + len(bad)), lambda e: lex(e, 'UnrecognizedToken'), False))
-    t = '%s + \\ %s' % (a, b)
-    out.append(('R08_text_after_line_continuation', 'expr', t, (len(a) + 3, len(a) + 5), lambda e: lex(e, 'LineContinuationError'), False))
+    # (anything but a line break: blanks of every kind, a comment, another backslash, letters, digits, brackets, quotes, non-ASCII)
+    after = cs.pick([' ', '\t', '\x0c', '#', '# c', '\\', 'x', '1', '(', ')', '"', "'", '\u00e9', '\u00a0', '\u2028', '\x0b', ' \n', '\t\r\n', '+', '.', '\x00'])
+    t = '%s + \\%s %s' % (a, after, b)
+    out.append(('R08_text_after_line_continuation', 'expr', t, (len(a) + 3, len(a) + 4 + len(after.encode('utf-8'))), lambda e: lex(e, 'LineContinuationError'), False))
     out.append(('R09_backslash_then_eof', 'tail', 'x = %s \\' % a, None, lambda e: lex(e, 'Eof', 'LineContinuationError'), False))
     num = cs.pick(['0x', '0b2', '0o8', '1__0', '1_', '0_', '1e_5', '012', '0b', '0o', '1_e5', '0x_', '1e', '1e+', '0xg', '1.2.3', '0777', '1__1.0', '09', '00_1x'][:16])
     out.append(('R10_malformed_number', 'expr', num, whole(num), lambda e: 'ANY', False))
@@ -260,6 +262,28 @@ def rules(cs, g):
              ('def f(%s=1, %s, *, z): pass\n', 'stmt'), ('def f(x, /, %s=1, %s): pass\n', 'stmt'), ('(lambda %s=1, /, %s: 0)', 'expr')]
     ftmpl, fkind = cs.pick(forms)
     t = ftmpl % ('p', 'q')
+    if cs.bool(170):
+        # the positional part of a parameter list from its grammar: 2-6 parameters, a run with defaults, then `q` without one;
+        # the `/` anywhere, annotations (def only), and any tail (`*a`, keyword-only parameters - where a missing default after a
+        # default is allowed -, `**kw`) behind it
+        lam = cs.bool(90)
+        npar = 2 + cs.choice(5)
+        j = 1 + cs.choice(npar - 1)          # index of the offender
+        d = cs.choice(j)                     # first parameter with a default
+        ann = lambda: '' if lam or not cs.bool(80) else ': ' + cs.pick(['int', 'str', '"T"', 'a.b'])
+        ps, dflt_later = [], False
+        for i in range(npar):
+            if i == j:
+                ps.append('q' + ann())
+            elif d <= i < j or (i > j and cs.bool()):
+                ps.append('p%d%s=%s' % (i, ann(), cs.pick(['1', 'None', '()', '"s"'])))
+            else:
+                ps.append('p%d%s' % (i, ann()))
+        if cs.bool(100):
+            ps.insert(1 + cs.choice(npar), '/')
+        tail = cs.pick(['', '', ', *a', ', *, k', ', *, k=1, m', ', **kw', ', *a, k, **kw'])
+        sig = ', '.join(ps) + tail + (',' if cs.bool(40) else '')
+        t, fkind = ('(lambda %s: 0)' % sig, 'expr') if lam else ('%sdef f(%s): pass\n' % (cs.pick(['', 'async ']), sig), 'stmt')
     out.append(('R17_non_default_after_default', fkind, t, span_of(t, 'q'), lambda e: lex(e, 'DefaultArgumentError'), False))
     k1 = n()
     forms = ['f(%s=1, %s)' % (k1, a), 'f(x, %s=1, %s, y)' % (k1, a), 'f(**k, %s)' % a, 'g(h(%s=1, %s))' % (k1, a)]
